@@ -28,7 +28,7 @@ PID = "C20"
 P = "OQuPyVerif.Props.C20."
 THEOREMS = [P + "memo_table", P + "copy_table", P + "array_table", P + "cache_sound",
             P + "copy_independent", P + "no_mutation_layout_indep", P + "layout_indep",
-            P + "reuse_eq_fresh",
+            P + "reuse_eq_fresh", P + "arg_table", P + "arg_store_sound",
             "OQuPyVerif.Aliasing.reshapeView_insert_ones", "OQuPyVerif.Aliasing.sim_run",
             "OQuPyVerif.Aliasing.static_run", "OQuPyVerif.Aliasing.inv_step"]
 
@@ -421,7 +421,7 @@ def run_api_case(call, arr):
     return err, out, before == after
 
 
-def results_close(a, b, exact=False):
+def results_close(a, b, exact=False, rtol=1e-10):
     if a is None or b is None or len(a) != len(b):
         return False
     for x, y in zip(a, b):
@@ -430,7 +430,7 @@ def results_close(a, b, exact=False):
         if exact:
             if not np.array_equal(x, y):
                 return False
-        elif not np.allclose(x, y, rtol=1e-10, atol=1e-12):
+        elif not np.allclose(x, y, rtol=rtol, atol=1e-12):
             return False
     return True
 
@@ -443,8 +443,11 @@ def site_index(tables, key):
 
 
 def parse_tables(line):
-    memo, cop, arr = [x.strip() for x in line.split("||")]
-    out = {"memo": [], "copies": [], "arrays": []}
+    memo, cop, arr, args = [x.strip() for x in line.split("||")]
+    out = {"memo": [], "copies": [], "arrays": [], "args": []}
+    for tok in args.split():
+        f = tok.split(":")
+        out["args"].append({"func": f[0], "param": f[1], "kind": f[2], "ok": f[3] == "ok=true"})
     for tok in memo.split():
         f = tok.split(":")
         cls, meth = f[0].split(".", 1)
@@ -910,6 +913,206 @@ def _subdiv():
 
 
 # ---------------------------------------------------------------------------
+# (iv) caller-owned parameter tables edited in place between calls
+# ---------------------------------------------------------------------------
+
+T_STEPS = 2          # time steps of the gradient runs: tables have 2*T_STEPS rows
+T_DT = 0.2
+
+
+def table_values(code):
+    """the (2*T_STEPS x 2) parameter table with value code `code` (deterministic)"""
+    r = random.Random(1000 + code)
+    return np.array([[r.uniform(0.2, 2.0), r.uniform(-1.0, 1.0)] for _ in range(2 * T_STEPS)])
+
+
+def _ham(hx, hz):
+    from oqupy import operators as op
+    return 0.5 * hx * op.sigma("x") + 0.5 * hz * op.sigma("z")
+
+
+def _analytic_derivs(dt, pars):
+    """cheap user-supplied propagator derivatives (central differences of the half step)"""
+    import oqupy
+    from scipy.linalg import expm
+    sysm = oqupy.ParameterizedSystem(_ham)
+    out = []
+    for i in range(2):
+        hp, hm = np.array(pars, dtype=float), np.array(pars, dtype=float)
+        hp[i] += 1e-6
+        hm[i] -= 1e-6
+        out.append((expm(sysm.liouvillian(*hp) * dt / 2) - expm(sysm.liouvillian(*hm) * dt / 2)) / 2e-6)
+    return out
+
+
+def new_param_system():
+    import oqupy
+    return oqupy.ParameterizedSystem(_ham, propagator_derivatives=_analytic_derivs)
+
+
+TABLE_FUNCS = {
+    # name -> (generated arg-store entry that decides how the table is recognised, call)
+    "ParameterizedSystem.get_propagators": "ParameterizedSystem.get_propagators",
+    "ParameterizedSystem.get_propagator_derivatives": "ParameterizedSystem.get_propagator_derivatives",
+    "state_gradient": "ParameterizedSystem.get_propagators",
+    "compute_gradient_and_dynamics": "ParameterizedSystem.get_propagators",
+}
+
+
+def table_call(func, system, table):
+    """one library call with the caller's table -> list of arrays"""
+    import oqupy
+    from oqupy import operators as op
+    from oqupy.gradient import compute_gradient_and_dynamics
+    from . import oq
+    if func == "ParameterizedSystem.get_propagators":
+        f = system.get_propagators(T_DT, table)
+        return as_list([x for k in range(T_STEPS) for x in f(k)])
+    if func == "ParameterizedSystem.get_propagator_derivatives":
+        f = system.get_propagator_derivatives(T_DT, table)
+        return as_list([y for k in range(T_STEPS) for x in f(k) for y in x])
+    if func == "state_gradient":
+        r = oqupy.state_gradient(system=system, initial_state=op.spin_dm("z+"),
+                                 target_derivative=op.spin_dm("x+").T,
+                                 process_tensors=[oq.identity_pt(T_STEPS, dt=T_DT)],
+                                 parameters=table, progress_type="silent")
+        return as_list([r["final_state"], r["gradient"], r["dynamics"].states])
+    if func == "compute_gradient_and_dynamics":
+        g, d = compute_gradient_and_dynamics(
+            system=system, parameters=table, initial_state=op.spin_dm("z+"),
+            target_derivative=op.spin_dm("x+").T, process_tensors=[oq.identity_pt(T_STEPS, dt=T_DT)],
+            progress_type="silent")
+        return as_list([d.states] + list(g))
+    raise ValueError(func)
+
+
+class TableHistory:
+    """ops: ("new", code) | ("mut", table, code) | ("call", table) on ONE shared system"""
+
+    def __init__(self, rng, func, n):
+        self.func = func
+        self.ops = [("new", rng.randrange(1, 6)), ("call", 0)]
+        ntab = 1
+        for _ in range(n):
+            r = rng.random()
+            if r < 0.15 and ntab < 3:
+                self.ops.append(("new", rng.randrange(1, 6)))
+                ntab += 1
+            elif r < 0.55:
+                self.ops.append(("mut", rng.randrange(ntab), rng.randrange(1, 6)))
+            else:
+                self.ops.append(("call", rng.randrange(ntab)))
+
+    def to_json(self):
+        return {"func": self.func, "ops": [list(o) for o in self.ops]}
+
+    @staticmethod
+    def from_json(d):
+        h = TableHistory.__new__(TableHistory)
+        h.func, h.ops = d["func"], [tuple(o) for o in d["ops"]]
+        return h
+
+    def line(self, tables):
+        site = [i for i, a in enumerate(tables["args"]) if a["func"] == TABLE_FUNCS[self.func]]
+        if not site:
+            return None
+        toks = []
+        for o in self.ops:
+            if o[0] == "new":
+                toks.append("new %d" % o[1])
+            elif o[0] == "mut":
+                toks.append("mut %d %d" % (o[1], o[2]))
+            else:
+                toks.append("call %d" % o[1])
+        return "args %d %s" % (site[0], ";".join(toks))
+
+
+def replay_table_history(hjson, predicted=None):
+    """Run the history on one shared real system.  `predicted` = per op the value code the model
+    says the result was computed from (None: the property's demand = the table's current code).
+    -> description of the first deviation, or None."""
+    h = TableHistory.from_json(hjson)
+    system = new_param_system()
+    tabs, codes = [], []
+    for n, o in enumerate(h.ops):
+        if o[0] == "new":
+            tabs.append(table_values(o[1]).copy())
+            codes.append(o[1])
+        elif o[0] == "mut":
+            tabs[o[1]][:] = table_values(o[2])        # in place: same ndarray object
+            codes[o[1]] = o[2]
+        else:
+            t = tabs[o[1]]
+            before = snapshot(t)
+            try:
+                got = table_call(h.func, system, t)
+            except Exception as e:      # noqa: BLE001
+                return {"op_index": n, "op": list(o), "observed": "raises " + exc_kind(e)}
+            if snapshot(t) != before:
+                return {"op_index": n, "op": list(o), "observed": "the call modified the caller's table"}
+            code = codes[o[1]] if predicted is None else predicted[n]
+            want = table_call(h.func, new_param_system(), table_values(code).copy())
+            if not results_close(got, want, rtol=1e-12):
+                dev = max(float(np.max(np.abs(x - y))) for x, y in zip(got, want))
+                return {"op_index": n, "op": list(o), "table_value_code": codes[o[1]],
+                        "compared_with_value_code": code, "max_abs_deviation": dev,
+                        "observed": "result differs from a fresh system called with a fresh table "
+                                    "holding the %s values" % ("table's current" if predicted is None
+                                                               else "predicted")}
+    return None
+
+
+def table_cases(res, rng, tier, tables, corpus):
+    n = 3 if tier == "quick" else 12
+    hs = list(corpus)
+    for func in TABLE_FUNCS:
+        for _ in range(n):
+            hs.append(TableHistory(rng, func, rng.randrange(4, 9)))
+    lines, jobs = [], []
+    for h in hs:
+        ln = h.line(tables)
+        if ln is None:
+            res.disagree("no generated arg-store entry for " + TABLE_FUNCS[h.func], h.to_json())
+            continue
+        lines.append(ln)
+        jobs.append(h)
+        res.count("table-history:" + h.func)
+        for o in h.ops:
+            res.count("table-op:" + o[0])
+    return lines, jobs
+
+
+def judge_table_history(res, h, line, got):
+    answers = got.split(";")
+    if len(answers) != len(h.ops) or "bad-op" in answers:
+        res.disagree("model could not run table history", {"history": h.to_json(), "model": got[:200]})
+        return
+    predicted, stale, codes = {}, False, []
+    for n, (o, a) in enumerate(zip(h.ops, answers)):
+        if o[0] == "new":
+            codes.append(o[1])
+        elif o[0] == "mut":
+            codes[o[1]] = o[2]
+        else:
+            predicted[n] = int(a)
+            stale = stale or int(a) != codes[o[1]]
+    res.count("table-history:stale-predicted" if stale else "table-history:current-predicted")
+    bad = replay_table_history(h.to_json(), predicted)
+    nontrivial = any(o[0] == "mut" for o in h.ops)
+    res.case(line, nontrivial, {"op": line[:160], "impl": "as predicted" if bad is None else json.dumps(bad)[:120],
+                                "model": got[:120]})
+    if bad is not None:
+        res.disagree("table history: real system deviates from the model's prediction",
+                     {"history": h.to_json(), "model": got, "impl": bad})
+
+
+def oracle_table(func):
+    """call -> edit the caller's table in place -> call again (the optimisation loop)"""
+    h = {"func": func, "ops": [["new", 1], ["call", 0], ["mut", 0, 2], ["call", 0]]}
+    return h, replay_table_history(h)
+
+
+# ---------------------------------------------------------------------------
 # whole computations with shared vs fresh objects
 # ---------------------------------------------------------------------------
 
@@ -1062,6 +1265,8 @@ def replay_case(payload):
     if kind == "history":
         bad = replay_history(payload["history"])
         return bad
+    if kind == "table":
+        return replay_table_history(payload["history"])
     if kind == "layout":
         probs = oracle_layout(payload["api"], payload.get("seed", 0))
         probs = [p for p in probs if p[0] == payload["layout"]]
@@ -1141,12 +1346,37 @@ def search(res, rng=None):
             add("reuse", key, payload)
 
 
-    for sec in (section_0, section_1, section_2, section_3):
+    def section_4():
+        # (6) caller-owned parameter tables edited in place between two calls
+        for func in TABLE_FUNCS:
+            h, bad = oracle_table(func)
+            res.count("search:table")
+            if bad is not None:
+                what = ("call-writes-caller-table" if "modified" in bad["observed"]
+                        else "inplace-update-ignored")
+                add("table", "%s:%s:parameters" % (what, func),
+                    {"kind": "table", "history": h, "observed": bad,
+                     "how": "one shared ParameterizedSystem(hx, hz -> 0.5 hx sx + 0.5 hz sz); new = "
+                            "ndarray with table_values(code) (random.Random(1000+code), 4 rows x 2), "
+                            "mut = table[:] = table_values(code) on the same ndarray, call = the "
+                            "function with that ndarray (dt=0.2, 2 steps, trivial process tensor); "
+                            "each call is compared (1e-12) with a fresh system called with a fresh "
+                            "table holding the table's current values"})
+        for i in range(8):
+            func = list(TABLE_FUNCS)[i % len(TABLE_FUNCS)]
+            h = TableHistory(rng, func, rng.randrange(4, 9))
+            bad = replay_table_history(h.to_json())
+            res.count("search:table")
+            if bad is not None:
+                add("table", "table-history:%s" % func,
+                    {"kind": "table", "history": h.to_json(), "observed": bad})
+
+    for sec in (section_4, section_0, section_1, section_2, section_3):
         try:
             sec()
         except Exception as e:      # noqa: BLE001
             res.notes.append("search: %s raised %s" % (sec.__name__, exc_kind(e)))
-    order = ["old-value-after-set", "bath-copy-follows-original", "layout",
+    order = ["table", "old-value-after-set", "bath-copy-follows-original", "layout",
              "copy-ignores-own-attribute", "reuse", "history"]
     while any(found.get(k) for k in order):
         for k in order:
@@ -1171,13 +1401,14 @@ def load_corpus():
 def correspondence(res, tier, rng):
     tables_line = fw.run_driver(PID, ["tables"])[0]
     tables = parse_tables(tables_line)
+    res.notes.append("arg stores: " + ", ".join("%s=%s" % (a["func"], a["kind"]) for a in tables["args"]))
     res.notes.append("generated tables: %d memo sites (%d admissible), %d copy sites, %d array sites "
                      "(%d statically safe)" % (
                          len(tables["memo"]), sum(s["ok"] for s in tables["memo"]),
                          len(tables["copies"]), len(tables["arrays"]),
                          sum(s["safe"] for s in tables["arrays"])))
     # corpus first: stored failing inputs must not fail any more
-    corpus_hist = []
+    corpus_hist, corpus_tab = [], []
     for fname, key, p in load_corpus():
         res.count("corpus")
         still = replay_case(p)
@@ -1185,10 +1416,13 @@ def correspondence(res, tier, rng):
             res.fail(key, dict(p, observed=still, corpus_file=fname))
         if p.get("kind") == "history":
             corpus_hist.append(History.from_json(p["history"]))
+        if p.get("kind") == "table":
+            corpus_tab.append(TableHistory.from_json(p["history"]))
     lines, expect, meta = numpy_lines(res, tier)
     a_lines, a_exp, a_meta = api_lines(res, rng, tables)
     h_lines, jobs = history_cases(res, rng, tier, tables, corpus_hist)
-    send = lines + [l for l in a_lines if l is not None] + h_lines
+    t_lines, t_jobs = table_cases(res, rng, tier, tables, corpus_tab)
+    send = lines + [l for l in a_lines if l is not None] + h_lines + t_lines
     out = fw.run_driver(PID, send)
     if len(out) != len(send):
         raise fw.Infra("driver returned %d lines for %d inputs" % (len(out), len(send)))
@@ -1211,6 +1445,10 @@ def correspondence(res, tier, rng):
         got = out[pos]
         pos += 1
         judge_history(res, h, toks, plan, got, tables)
+    for h, line in zip(t_jobs, t_lines):
+        got = out[pos]
+        pos += 1
+        judge_table_history(res, h, line, got)
     for key, payload in computation_reuse(res, rng, tier):
         res.disagree("re-used objects give other results than fresh equal objects: " + key, payload)
 
@@ -1232,7 +1470,11 @@ def run(tier, seed, replay):
         "attribute assignment, evaluations incl. memoised ones) on real PowerLawSD / CustomSD / "
         "CustomCorrelations objects vs the memo model: the model names the attribute values each "
         "returned number was computed from, the harness realises them on fresh real objects and "
-        "compares bit-for-bit (composite 2D integrals 1e-12).  Non-trivial = reshape/shape cases of "
+        "compares bit-for-bit (composite 2D integrals 1e-12).  Table level: histories on one shared "
+        "ParameterizedSystem (new table, in-place edit of the same ndarray, call of get_propagators / "
+        "get_propagator_derivatives / state_gradient / compute_gradient_and_dynamics): each call vs "
+        "a fresh system with a fresh table holding the values the model names (1e-12), caller's "
+        "table bytes before vs after each call.  Non-trivial = reshape/shape cases of "
         "matching size, API cases, histories with a cache hit or a predicted stale value; distinct "
         "= distinct protocol line.")
     res.assumptions = [
